@@ -1,6 +1,7 @@
 """C07 — Secure implies an unbroken chain to a trust anchor: origin census of Proof::Secure /
 Proof::Insecure, DS->DNSKEY guard set, who writes Record.proof, verify_response exits, server AD/SERVFAIL mapping."""
 import re
+import helpers
 from collections import Counter
 from api import shorten, writers, Site
 import C06
@@ -266,3 +267,6 @@ def run(cx):
         falses = cx.assigns(d, r'^Option::Some\(false\)$', place=None)
         cx.check('C07.G4', len(other) == 1 and len(falses) >= 1 and all(x.bb in other or x.bb in cx.reachable_from(d, other, avoid_blocks=[s.bb for s in goi]) for x in falses),
                  d.path, 'arm', 'non-secure-arm-clears-flag', f'arms={len(other)} stores={len(falses)}')
+
+    # ---------------------------------------------------------------- H helper semantics the guards above rely on (rules/helpers.py)
+    helpers.check(cx, 'C07.H', ['Proof::is_secure', 'DS::covers', 'Algorithm::is_supported', 'Name::zone_of', 'DNSKEY::zone_key', 'DNSKEY::revoke', 'Name::base_name'])
